@@ -126,7 +126,9 @@ def spectrum_gap(M, k, symmetric):
 def _filter_solve(Xtr, ytr, alpha, method, rank_tol):
     """Regularised least squares on (Xtr, ytr) in the numerical-rank subspace."""
     U, s, Vt = np.linalg.svd(Xtr, full_matrices=False)
-    r = int(np.sum(s > rank_tol))
+    # numerical rank in its standard sense (numpy.linalg.matrix_rank, scipy.linalg.pinv):
+    # singular values above max(n, m) * eps * (largest singular value of this matrix)
+    r = int(np.sum(s > rank_tol * (s[0] if s.size else 0.0)))
     U, s, Vt = U[:, :r], s[:r], Vt[:r]
     if method == "tikhonov":
         f = s / (s**2 + alpha)
@@ -162,7 +164,9 @@ def ref_scores(name, y_true, y_pred):
 
 def ref_ridge2fold(X, y, alphas, alpha_type, method, scoring, fold1, fold2, eps=None):
     """Explicit two-fold CV regularised least squares. Returns dict. eps: machine
-    epsilon of the caller's X (the numerical rank is a statement about X's precision)."""
+    epsilon of the caller's X (the numerical rank is a statement about X's precision).
+    rank_tol is the RELATIVE cut max(n, m) * eps; each decomposed matrix (fold 1, fold 2,
+    full data) is cut at rank_tol times its own largest singular value."""
     X = np.asarray(X, float)
     y = np.asarray(y, float)
     fold1, fold2 = (np.flatnonzero(f) if np.asarray(f).dtype == bool else np.asarray(f) for f in (fold1, fold2))
